@@ -1347,7 +1347,11 @@ class Store:
         flow_updates.extend(flow_paths)
 
         self._apply_subschema_path(path)
-        self.get_path(path).apply_defaults()
+        target = self.get_path(path)
+        target.apply_defaults()
+        # variables that only the sub-schema of this store declares
+        # exist now: give them their initial state as well
+        target.set_value(insertion['initial_state'])
 
         return process_updates, step_updates, flow_updates, topology_updates
 
